@@ -127,6 +127,8 @@ def iter_cases(ctx, conf, init_variants=True, want_random=True, with_reuse=True,
             v1 = G.structured_random(rng, params, 12)[:12]
             delivery = f"{rng.choice(tok.DELIVERY)}|clone={clone}|prior={''.join('A' if x else 'a' for x in v1)}"
             kind = rng.choice(("char", "tuple", "bytes", "falsy_obj")) if j == 2 else rng.choice(tok.KIND_NAMES)
+        elif j == 5:
+            delivery, kind = f"{rng.choice(tok.DELIVERY)}|seq={rng.randint(1, 4)}", rng.choice(tok.KIND_NAMES)
         elif j == 3:
             delivery, kind = "generator|threads=alternate", rng.choice(tok.KIND_NAMES)
             if i % 12 == 3:
